@@ -2,6 +2,7 @@
 from .rules import spec as R_spec
 from .rules import c17 as R_c17
 from .rules import c11 as R_c11
+from .rules import c08 as R_c08
 
 Q = ("quick", "thorough")
 T = ("thorough",)
@@ -57,5 +58,21 @@ PROPS = {
         technique="typestate dataflow on a statement CFG with exception edges + who-may-write effect scan over the call graph",
         trusted_base=["vstat.cfg (statement CFG with exception edges)", "no-raise table NORAISE_CALLEES in vstat/rules/c11.py"],
         assumptions=["exceptions considered are subclasses of Exception"],
+    ),
+    "C08": dict(
+        title="Abstract memory behaves as a last-write-wins byte store",
+        explanation=(
+            "Decides two structural necessary conditions of the byte-store behaviour: (R-CACHE) the start-address cache that "
+            "MemoryZone.locate() bisects is refreshed after every edit of a zone's object list on every path to a normal exit, "
+            "in memory.py and in every external editor found in the tree (raw.py, vm/dwarf.py); (R-XFER) the restruct / copy / "
+            "merge / mergeparts loops transfer every object (no path through a loop body drops the element). "
+            "Does NOT decide the overlap arithmetic of addtomap/setpart/getpart or endianness slicing (byte-for-byte equality)."
+        ),
+        rules=[(R_c08.r_cache, Q), (R_c08.r_xfer_c08, Q)],
+        level_text="partial: must-pass-through on the CFG of every function that edits a zone map (8 functions, 13 edit sites) and path enumeration over 5 transfer loops; covers all paths including the rarely taken ones (empty map, j==i, TypeError merge fallback) that the 4 memory tests do not reach",
+        level_note="Trusted: refresher summaries are one-level and limited to MemoryZone/MemoryMap/mapper (restruct & co); the emptiness early-return idiom of restruct is accepted; exception exits are not required to refresh; receivers of `_map` outside MemoryZone are identified by attribute name.",
+        technique="must-pass-through (post-dominance) on statement CFGs + path enumeration of transfer loops",
+        trusted_base=["vstat.cfg", "refresher summary in vstat/rules/c08.py"],
+        assumptions=["a zone's object list is only reachable through the attribute name _map"],
     ),
 }
